@@ -615,7 +615,7 @@ func main() {
 		seed := common.ArgU64(args, "seed", 1)
 		n := common.ArgInt(args, "n", 100)
 		out := common.NewOut(args["out"])
-		g := &Gen{S: env.schema, R: common.NewRand(seed)}
+		g := &Gen{S: env.schema, M: env.mapping, R: common.NewRand(seed)}
 		wildNum = common.ArgInt(args, "wild", wildNum)
 		mutNum = common.ArgInt(args, "mut", mutNum)
 		for i := 0; i < n; i++ {
@@ -629,7 +629,7 @@ func main() {
 			panic(err)
 		}
 		out := common.NewOut(args["out"])
-		g := &Gen{S: env.schema, R: common.NewRand(1)}
+		g := &Gen{S: env.schema, M: env.mapping, R: common.NewRand(1)}
 		sc := bufio.NewScanner(f)
 		sc.Buffer(make([]byte, 1<<20), 1<<26)
 		for sc.Scan() {
